@@ -151,9 +151,9 @@ var templateSrc = []struct {
 	{"apq", "i", "apply-quoted-symbol", "(apply '+ (list ?i ?i))", 0},
 	{"fcs", "i", "funcall-sharp-quote", "(funcall #'+ ?i ?i)", 0},
 	{"fcq", "i", "funcall-quoted-symbol", "(funcall '- ?i ?i)", 0},
-	{"fcv", "l", "funcall-site-called-with-different-functions", "(mapcar (lambda (f x) (funcall f x)) (list '1+ '1- (lambda (y) (* y 2)) '1+) (list ?i ?i ?i ?i))", 1},
-	{"fcd", "l", "funcall-in-a-function-called-with-different-functions", "(let () (defun NAME (f x) (funcall f x ?i+x*)) (list (NAME '+ ?i) (NAME '- ?i) (NAME (lambda (y z) (* y z)) ?i) (NAME '+ ?i)))", 0},
-	{"apv", "l", "apply-site-called-with-different-functions", "(mapcar (lambda (f x) (apply f x (list ?i+x?*))) (list '+ '- (lambda (y z) (* y z))) (list ?i ?i ?i))", 0},
+	{"fcv", "l", "funcall-site-called-with-different-functions", "(mapcar (lambda (fn x) (funcall fn x)) (list '1+ '1- (lambda (y) (* y 2)) '1+) (list ?i ?i ?i ?i))", 1},
+	{"fcd", "l", "funcall-in-a-function-called-with-different-functions", "(let () (defun NAME (fn x) (funcall fn x ?i+x*)) (list (NAME '+ ?i) (NAME '- ?i) (NAME (lambda (y z) (* y z)) ?i) (NAME '+ ?i)))", 0},
+	{"apv", "l", "apply-site-called-with-different-functions", "(mapcar (lambda (fn x) (apply fn x (list ?i+x?*))) (list '+ '- (lambda (y z) (* y z))) (list ?i ?i ?i))", 0},
 	{"vl2", "a", "function-returning-two-values", "((lambda (a b) (values a b)) ?a ?a)", 2},
 	{"vl1", "r", "function-returning-one-value-via-values", "((lambda (a) (values a)) ?r)", 0},
 	{"vln", "a", "function-returning-nil-and-a-second-value", "((lambda (a) (values nil a)) ?a)", 1},
